@@ -43,6 +43,7 @@ type PropCfg struct {
 }
 
 type knownFinding struct {
+	When                         *Sx
 	Prop, Obligation, Func, What string
 	Fixed                        bool
 	Raw                          string
@@ -77,6 +78,15 @@ func loadFindings(path string) []knownFinding {
 		}
 		if i := strings.Index(ln, " -- "); i >= 0 {
 			k.What = ln[i+4:]
+		}
+		if i := strings.Index(ln, " when="); i >= 0 {
+			w := ln[i+6:]
+			if j := strings.Index(w, " -- "); j >= 0 {
+				w = w[:j]
+			}
+			if sx, err := ParseOne(strings.TrimSpace(w)); err == nil {
+				k.When = sx
+			}
 		}
 		out = append(out, k)
 	}
@@ -146,8 +156,13 @@ func writeSet(p *Program, sp *Spec, fn *ssa.Function, seen map[*ssa.Function]boo
 				}
 				if strings.HasSuffix(ifn, ".BankKeeper") {
 					switch cc.Method.Name() {
-					case "SendCoins", "SendCoinsFromModuleToAccount", "SendCoinsFromAccountToModule", "SendCoinsFromModuleToModule", "MintCoins", "BurnCoins":
+					case "SendCoins", "SendCoinsFromModuleToAccount", "SendCoinsFromAccountToModule", "SendCoinsFromModuleToModule":
 						out["bank"] = true
+						out["bank.bal"] = true
+					case "MintCoins", "BurnCoins":
+						out["bank"] = true
+						out["bank.bal"] = true
+						out["bank.supply"] = true
 					}
 				}
 				// other repo interfaces: follow every implementation in the loaded repo packages
@@ -232,6 +247,14 @@ func cmdCheck(args []string) {
 		fatal(fmt.Errorf("property %s not configured", *prop))
 	}
 	findings := loadFindings(filepath.Join(*outDir, "known_findings.txt"))
+	for _, k := range findings {
+		if !k.Fixed && k.Prop == cfg.ID && k.When != nil && k.Func != "" {
+			if KnownWhen[k.Func] == nil {
+				KnownWhen[k.Func] = map[string]*Sx{}
+			}
+			KnownWhen[k.Func][k.Obligation] = k.When
+		}
+	}
 	scratch, _ := os.MkdirTemp("/var/tmp", "govc.")
 	defer os.RemoveAll(scratch)
 	replayDir := filepath.Join(*outDir, "replay", cfg.ID)
@@ -249,7 +272,7 @@ func cmdCheck(args []string) {
 	problem := func(kind, fn, name, detail string, o *Obligation, sess *Session) {
 		// known finding?
 		for _, k := range findings {
-			if !k.Fixed && k.Prop == cfg.ID && k.Obligation == name && (k.Func == "" || k.Func == shortName(fn)) {
+			if !k.Fixed && k.When == nil && k.Prop == cfg.ID && k.Obligation == name && (k.Func == "" || k.Func == shortName(fn)) {
 				knownLines = append(knownLines, fmt.Sprintf("KNOWN-FINDING: property=%s %s %s -- %s", cfg.ID, shortName(fn), name, k.What))
 				return
 			}
@@ -462,6 +485,16 @@ func cmdCheck(args []string) {
 			for _, o := range r.Obls {
 				solverMs += o.Ms
 				fr.SolverMs += o.Ms
+				if o.Kind == "known" {
+					if o.Result == "sat" {
+						for _, k := range findings {
+							if !k.Fixed && k.Prop == cfg.ID && k.Func == shortName(n) && k.Obligation == "post."+o.Label {
+								knownLines = append(knownLines, fmt.Sprintf("KNOWN-FINDING: property=%s %s %s when=%s -- %s", cfg.ID, shortName(n), k.Obligation, k.When, k.What))
+							}
+						}
+					}
+					continue
+				}
 				if o.Cover {
 					base := strings.SplitN(o.Name, "#", 2)[0]
 					if o.Result == "sat" || o.Result == "skipped" {
